@@ -110,7 +110,7 @@ func TestVerifDataRows(t *testing.T) {
 			}
 		}
 	})
-	out.Emit(map[string]any{"kind": "summary", "rows": n, "mismatches": nmis, "errors": nerr, "classes": classes,
+	out.Emit(map[string]any{"kind": "summary", "rows": n, "mismatches": nmis, "errors": nerr, "classes": classes, "built_auth": VerifBuiltCount[0], "built_noauth": VerifBuiltCount[1],
 		"obs_v6only_substituted": obsV6Sub})
 }
 
